@@ -62,6 +62,14 @@ def c01(ctx):
         rep["evaluations"] += xrep["evaluations"]
         rep["drift"] += xrep["drift"]
         rep["drift_samples"] += xrep.get("drift_samples", [])
+    # the content-attribute grammar of the meta prescan (MC_Meta content mode) on the real code: every document must come back
+    mc = ctx.tlc_expect_ok("MC_Meta.tla", "MC_Meta_content.cfg", tag="meta_content_c01")
+    rpm = os.path.join(ctx.scratch, "meta_content_c01.json")
+    ctx.vdrive(["metadocs", "-in", mc["out"], "-out", rpm])
+    os.remove(mc["out"])
+    mrep = ctx.report(rpm)
+    rep["violations"] += mrep["violations"]
+    rep["evaluations"] += mrep["evaluations"]
     # zip layouts with the in-bounds obligations of ZipWalk.tla (DesignC01)
     z = ctx.tlc_expect_ok("MC_Zip.tla", "MC_Zip.cfg", timeout=3000, tag="MC_Zip_c01")
     os.remove(z["out"])
